@@ -300,7 +300,7 @@ theorem readRows_spec (hp : Bool) (rs : List (List Word)) (T L : Nat) (start : D
       unfold timeadd
       rw [if_neg (by omega)]
       simp [iter]
-    have htr := trange_spec (T := T) (start := start) (step := step) h0 hs T 0 ((r0 :: tl).length + 1) (by omega) (by rw [hlen]; omega)
+    have htr := trange_spec (T := T) (start := start) (step := step) h0 hs T 0 ((r0 :: tl).length + 1 + T) (by omega) (by rw [hlen]; omega)
     rw [hlen] at hcount hwalk htr
     unfold readRows
     simp only [hstr, hstart, hlen, hcount, hr1, hstep]
@@ -308,7 +308,7 @@ theorem readRows_spec (hp : Bool) (rs : List (List Word)) (T L : Nat) (start : D
     simp only [hfin, hfd, hcnt]
     have hnneg : ¬ ((T : Int) < 0) := by omega
     have heod : ¬ (hp = true ∧ step % 2 = 1) := by omega
-    simp only [hnneg, if_false, heod, hstop, hstart0]
+    simp only [hnneg, if_false, heod, hstop, hstart0, Int.toNat_natCast]
     rw [htr]
     simp only [List.length_map, List.length_range, Nat.zero_add, gt_iff_lt, lt_self_iff_false, if_false]
     -- every slab is fetched from the record the table names
@@ -438,7 +438,7 @@ theorem readTempRows_spec (rs : List (List Word)) (T m : Nat) (start : DT) (step
       simp
     have hstart0 : timeadd 2400 start 0 = iter start step 0 := by
       rw [timeadd_noroll _ _ (by omega)]; simp [iter]
-    have htr := trange_spec (T := T) (start := start) (step := step) h0 hs T 0 ((r0 :: tl).length + 1) (by omega) (by rw [hlen]; omega)
+    have htr := trange_spec (T := T) (start := start) (step := step) h0 hs T 0 ((r0 :: tl).length + 1 + T) (by omega) (by rw [hlen]; omega)
     unfold readTempRows
     simp only [hstart, hfirst, hr1, hlast, hstep, hdl, hcnt]
     have hnneg : ¬ ((T : Int) < 0) := by omega
